@@ -14,6 +14,8 @@ From EV Require Import Base.Str Model.Value Model.Keyspace Model.Reply Model.Pro
 From EV Require Import Proofs.RaftLemmas Proofs.RaftDet Proofs.RaftClasses Proofs.RaftProofs Proofs.ProgLemmas.
 From EV Require Import Model.TableTypes Gen.CmdTable Proofs.TableObligations Proofs.HandlerClasses.
 From EV Require Import Proofs.AbsFormProofs Proofs.AbsFormReplay.
+From EV Require Import Proofs.KeyspaceLemmas Proofs.SnapRoundTrip Proofs.RaftSnapshot.
+From RecordUpdate Require Import RecordSet.
 Local Open Scope Z_scope.
 
 Definition det_log (T : Z) (L : list request) : Prop := Forall (fun e => entry_det_b T e = true) L.
@@ -215,14 +217,55 @@ Example C07_log_not_trivial :
      <> show_state (dataset (init_state 5)).
 Proof. split; [vm_compute; reflexivity|vm_compute; discriminate]. Qed.
 
-(** raft snapshot: Persist then Restore into a node that holds other data gives back every database
-    (evaluated, not kernel-checked as a theorem: [Qed] on this statement does not terminate in
-    reasonable time; Persist/Restore are tied to the implementation by the twin-FSM harness instead) *)
+(** * The raft snapshot: Persist then Restore, for all datasets
+
+    For every donor store [s], every receiving node [n0] (whatever it holds; no memory limit) and every
+    wall clock [w]: after [Restore] of what [Persist] wrote, the node's store holds, in every database
+    and under every key, exactly the donor's entry - value and deadline - unless that deadline had
+    passed at [w]; nothing of the node's old data is left; its clock and limits are untouched. *)
+Theorem C07_snapshot_roundtrip w s n0 :
+  st_maxmem n0 = 0 ->
+  let r := fsm_restore w (fsm_persist w s) n0 in
+  (forall d k, get_db r d !! k = purge1 w (flookup (st_dbs s) d k)) /\
+  st_now r = st_now n0 /\ st_maxmem r = 0 /\ st_noevict r = st_noevict n0.
+Proof. exact (raft_snapshot_roundtrip w s n0). Qed.
+
+(** Donor, wall clock and receiving node at the same instant: the clients of the restored node see, in
+    every database, exactly what the donor's clients saw. *)
+Theorem C07_snapshot_same_view s n0 :
+  st_maxmem n0 = 0 -> st_now n0 = st_now s ->
+  forall d k, lentry (fsm_restore (st_now s) (fsm_persist (st_now s) s) n0) d k = lentry s d k.
+Proof. exact (raft_snapshot_same_view s n0). Qed.
+
+(** Two nodes restored from one snapshot hold the same store, whatever each held before. *)
+Theorem C07_snapshot_nodes_agree w s n1 n2 :
+  st_maxmem n1 = 0 -> st_maxmem n2 = 0 ->
+  forall d k, get_db (fsm_restore w (fsm_persist w s) n1) d !! k = get_db (fsm_restore w (fsm_persist w s) n2) d !! k.
+Proof. exact (raft_snapshot_nodes_agree w s n1 n2). Qed.
+Print Assumptions C07_snapshot_roundtrip.
+Print Assumptions C07_snapshot_same_view.
+Print Assumptions C07_snapshot_nodes_agree.
+
+(** Non-vacuity: the dataset of [C07_log] restored into a node that holds other data (a stale key in
+    database 0, a key in a database the donor does not have) - every database comes back entry for
+    entry, and the volatile-key index as a set (its order is the order of re-insertion). *)
 Definition snap_src : state := apply_all (fun _ => 100) (fun _ => default_pick) (init_state 100) C07_log.
 Definition snap_junk : state :=
   apply_all (fun _ => 100) (fun _ => default_pick) (init_state 100) [c 0 ["SET"; "stale"; "1"]; c 5 ["SET"; "q"; "1"]].
-Eval vm_compute in
-  (map (show_db (fsm_restore 100 (fsm_persist 100 snap_src) snap_junk)) [0; 1; 2; 5; 10], map (show_db snap_src) [0; 1; 2; 5; 10]).
+Definition no_index (s : state) : state := set st_vol (fun _ => ∅) s.
+Example C07_snapshot_example :
+  let r := fsm_restore 100 (fsm_persist 100 snap_src) snap_junk in
+  st_maxmem snap_junk = 0 /\
+  map (show_db (no_index r)) [0; 1; 2; 5; 10] = map (show_db (no_index snap_src)) [0; 1; 2; 5; 10] /\
+  map (fun d => sort_strings (get_vol r d)) [0; 1; 2; 5; 10] = map (fun d => sort_strings (get_vol snap_src d)) [0; 1; 2; 5; 10] /\
+  show_db snap_junk 5 <> show_db snap_src 5 /\
+  (* the volatile-key index comes back as a set; its order is that of the re-insertion *)
+  show_db r 0 = "db0{61=i2@1000000 65=s76@900000}v[61,65]"%string /\
+  show_db snap_src 0 = "db0{61=i2@1000000 65=s76@900000}v[65,61]"%string.
+Proof.
+  cbv zeta. split; [vm_compute; reflexivity|]. split; [vm_compute; reflexivity|]. split; [vm_compute; reflexivity|].
+  split; [vm_compute; discriminate|]. split; vm_compute; reflexivity.
+Qed.
 
 (** a follower rejects, forwards; the leader proposes *)
 Example C07_follower_example :
